@@ -47,10 +47,46 @@ def stored_abs(s):
     return [from_message(m) for m in s._abs._messages]
 
 
+import signal
+
+
+class Timeout(Exception):
+    pass
+
+
+def _alarm(signum, frame):
+    raise Timeout()
+
+
+try:
+    signal.signal(signal.SIGALRM, _alarm)
+except ValueError:
+    pass
+
+
+def with_timeout(f, inp, seconds=20):
+    """run f(inp) with a wall-clock limit (main thread only): a changed implementation that no longer terminates must
+    end up as a reported failure, not as a check that hangs"""
+    try:
+        old = signal.signal(signal.SIGALRM, _alarm)
+    except ValueError:          # not in the main thread
+        return f(inp)
+    signal.alarm(seconds)
+    try:
+        return f(inp)
+    finally:
+        signal.alarm(0)
+        signal.signal(signal.SIGALRM, old)
+
+
 def guarded(f):
     def g(inp):
         try:
-            return f(inp)
+            return with_timeout(f, inp)
+        except Timeout:
+            return "!Timeout (no result within 20 s)"
+        except MemoryError:
+            return "!MemoryError"
         except Exception as e:  # noqa
             return show_exc(e)
     return g
@@ -790,6 +826,22 @@ def show_state(d):
     return ",".join(str(d[k]) for k in ks)
 
 
+def _abs_of_track(ms, how):
+    """absolute tuples of a track given as a relative list.  'abs0': every message on channel 0; 'absmix': the notes of
+    odd pitch on the next channel, except that the first message keeps the track's channel (a track that mixes
+    channels: tokenise stamps its own track number on all of it)"""
+    a, d = [], 0
+    for m in ms:
+        if m[0] == "WAIT":
+            d += m[2]
+        else:
+            ch = 0 if how == "abs0" else m[1]
+            if how == "absmix" and a and m[4] % 2 == 1:
+                ch = m[1] + 1
+            a.append(m[:1] + (ch,) + (d,) + m[3:])
+    return a
+
+
 def mk_track(ms, how):
     """how: 'rel' (relative view given), 'abs' (built with add_absolute_message: absolute view fresh),
     'abs0' (same, every message on channel 0), 'read' (relative given, then the absolute view is read)"""
@@ -799,26 +851,14 @@ def mk_track(ms, how):
         s = mk_rel(ms)
         s.abs
         return s
-    a, d = [], 0
-    for m in ms:
-        if m[0] == "WAIT":
-            d += m[2]
-        else:
-            a.append(m[:1] + ((0,) if how == "abs0" else (m[1],)) + (d,) + m[3:])
-    return mk_abs(a)
+    return mk_abs(_abs_of_track(ms, how))
 
 
 def track_rel_lit(ms, how):
     """the relative list the model starts from, as a Coq term"""
     if how in ("rel", "read"):
         return lit_msgs(ms)
-    a, d = [], 0
-    for m in ms:
-        if m[0] == "WAIT":
-            d += m[2]
-        else:
-            a.append(m[:1] + ((0,) if how == "abs0" else (m[1],)) + (d,) + m[3:])
-    return f"(to_rel {INS(a)})"
+    return f"(to_rel {INS(_abs_of_track(ms, how))})"
 
 
 def _impl_roundtrip_tok(inp):
@@ -851,7 +891,7 @@ def _gen_rt(r):
     if r.random() < 0.04:       # a wrong number of sequences for the configured number of tracks
         tracks = tracks[:-1] if r.random() < 0.5 else tracks + [tracks[0]]
     # tracks without a trailing rest can be handed over through the absolute view as well
-    hows = [r.choice(["rel", "rel", "abs", "abs0", "read"]) if not (ms and ms[-1][0] == "WAIT") else r.choice(["rel", "read"])
+    hows = [r.choice(["rel", "rel", "abs", "abs0", "read", "absmix"]) if not (ms and ms[-1][0] == "WAIT") else r.choice(["rel", "read"])
             for ms in tracks]
     return cfg, tracks, hows
 
@@ -1147,7 +1187,10 @@ def gen_history(r, nsteps=None, two_sided=False):
             if is_:
                 ops.append((k, is_, r.randrange(len(is_)), r.random() < 0.5))
         # the executor tells how many objects an op appended; the generator must know n: recompute by dry run
-        n = _dry_count(ops)
+        try:
+            n = _dry_count(ops)
+        except StopGen:
+            break
     return ops
 
 
@@ -1157,6 +1200,10 @@ def _exec(ops, upto=None, trace=True, return_store=False, hook=None):
     for o in ops:
         k = o[0]
         out = "-"
+        try:
+            signal.setitimer(signal.ITIMER_REAL, 0.7)   # per operation: a changed implementation that loops must not hang generation or checks
+        except ValueError:
+            pass
         try:
             if k == "ONew":
                 store.append(Sequence())
@@ -1273,8 +1320,22 @@ def _exec(ops, upto=None, trace=True, return_store=False, hook=None):
                 raise AssertionError(k)
         except AssertionError:
             raise
+        except (Timeout, MemoryError) as e:
+            out = "!Timeout" if isinstance(e, Timeout) else "!MemoryError"
+            for s_ in store:         # a runaway operation leaves lists of millions of messages behind: cut them down
+                for rep in (getattr(s_, "_abs", None), getattr(s_, "_rel", None)):
+                    if rep is not None and len(rep._messages) > 5000:
+                        del rep._messages[50:]
         except Exception as e:
             out = show_exc(e)
+        finally:
+            try:
+                signal.setitimer(signal.ITIMER_REAL, 0)
+            except (ValueError, Timeout):
+                try:
+                    signal.setitimer(signal.ITIMER_REAL, 0)
+                except (ValueError, Timeout):
+                    pass
         tr.append(out + "@" + "#".join(show_seq(s) for s in store))
         if hook is not None:
             hook(store, len(tr) - 1, o)
@@ -1319,8 +1380,14 @@ def _integral(ops):
     return True
 
 
+class StopGen(Exception):
+    pass
+
+
 def _dry_count(ops):
-    store, _ = _exec(ops, return_store=True)
+    store, tr = _exec(ops, return_store=True)
+    if tr and tr[-1].startswith("!Timeout"):
+        raise StopGen()          # the last operation does not terminate: the history ends here
     return len(store)
 
 
